@@ -104,10 +104,33 @@ Theorem C18_tcp_takes_full_wait : forall wait srvs s l,
 Proof. exact tcp_takes_full_wait. Qed.
 Print Assumptions C18_tcp_takes_full_wait.
 
+(* handlers that are stuck where closing the client connection does not wake them (a dial to a
+   silent upstream, a slow custom handler) never delay Shutdown: its return time does not depend
+   on [lstuck] at all (and every bound above holds for every [lstuck]); their clients see the
+   connection closed at the deadline at the latest.  A Shutdown that waited for the handler
+   goroutines would overrun the wait. *)
+Theorem C18_stuck_handlers_do_not_delay : forall wait l stuck',
+  r_ret (run_leaf grpc_prog wait l) =
+  r_ret (run_leaf grpc_prog wait {| lkind := lkind l; litems := litems l; lstuck := stuck' |}).
+Proof. exact stuck_handlers_do_not_delay. Qed.
+Print Assumptions C18_stuck_handlers_do_not_delay.
+
+Theorem C18_stuck_client_closed_by_deadline : forall wait l f,
+  lkind l = KTcp -> In f (r_stuck (run_leaf grpc_prog wait l)) ->
+  exists c, f = Cut c /\ dle c (Fin wait).
+Proof. exact stuck_client_closed_by_deadline. Qed.
+Print Assumptions C18_stuck_client_closed_by_deadline.
+
+Theorem C18_waiting_for_handlers_refuted :
+  exists wait l, lkind l = KTcp /\ r_ret (run_leaf grpc_prog wait l) = Fin wait /\
+                 ~ dle (tcp_waiting_ret wait l) (Fin wait).
+Proof. exact waiting_for_handlers_refuted. Qed.
+Print Assumptions C18_waiting_for_handlers_refuted.
+
 (* the servers are shut down concurrently: the waits do not add up *)
 Theorem C18_parallel_not_sequential :
-  g_ret (shutdown 300 [Single {| lkind := KTcp; litems := [] |}; Single {| lkind := KTcp; litems := [Inf] |}]) = Fin 300 /\
-  shutdown_sequential_ret 300 [Single {| lkind := KTcp; litems := [] |}; Single {| lkind := KTcp; litems := [Inf] |}] = Fin 600.
+  g_ret (shutdown 300 [Single (mkleaf KTcp []); Single (mkleaf KTcp [Inf])]) = Fin 300 /\
+  shutdown_sequential_ret 300 [Single (mkleaf KTcp []); Single (mkleaf KTcp [Inf])] = Fin 600.
 Proof. exact parallel_not_sequential. Qed.
 Print Assumptions C18_parallel_not_sequential.
 
